@@ -33,11 +33,11 @@ func gxzContentFamily(c *hx.Ctx, bin string, id string) {
 	}
 	cases = append(cases, lad...)
 	k := 0
-	for _, class := range []string{"randomfirst", "maxlenruns", "nearrandom", "randomrepeats", "lowentropy", "xx", "alternating", "zeros"} {
+	for _, class := range []string{"randomfirst", "textnoisetext", "repeatsinnoise-text", "maxlenruns", "nearrandom", "randomrepeats", "lowentropy", "xx", "alternating", "zeros"} {
 		for _, f := range []string{"xz", "lzma"} {
 			for _, preset := range []int{-1, 0, 3, 6, 9} {
 				k++
-				if !c.Thorough() && (k+int(c.Seed))%3 != 0 && !(class == "randomfirst" && (preset == 0 || preset == 6) && f == "xz") {
+				if !c.Thorough() && (k+int(c.Seed))%3 != 0 && !((class == "randomfirst" || class == "textnoisetext" || class == "repeatsinnoise-text") && (preset == 0 || preset == 6) && f == "xz") {
 					continue
 				}
 				n := 100000 + 777*k
@@ -51,10 +51,18 @@ func gxzContentFamily(c *hx.Ctx, bin string, id string) {
 	parallel(len(cases), func(i int) {
 		t := cases[i]
 		var plain []byte
-		if t.class == "randomfirst" {
+		switch t.class {
+		case "randomfirst":
 			// an incompressible first chunk followed by compressible data
 			plain = append(MakeData("random", 70000+i, c.Seed+int64(i)), MakeData("text", t.n-70000, c.Seed+int64(i)+1)...)
-		} else {
+		case "textnoisetext":
+			// compressible, then two or more chunks worth of noise, then compressible again
+			plain = append(append(MakeData("text", 20000+i, c.Seed+int64(i)), MakeData("random", 150000+i, c.Seed+int64(i)+1)...), MakeData("text", 30000, c.Seed+int64(i)+2)...)
+		case "repeatsinnoise-text":
+			// noise with a few embedded repetitions (stored raw, but the discarded attempt used long
+			// matches), then text with long repeats
+			plain = append(MakeData("randomrepeats", 70000+i, c.Seed+int64(i)), bytes.Repeat(MakeData("text", 700, c.Seed+int64(i)+1), 40)...)
+		default:
 			plain = MakeData(t.class, t.n, c.Seed+int64(i))
 		}
 		dir, err := os.MkdirTemp(c.Scratch, "gxzcontent")
